@@ -46,6 +46,9 @@ let names s th : string list * string list =
   | PHUnl | PRmHUnl | PPreHUnl -> ["hunlock"], []
   | PRUnl | PEnd | PPreRUnlF | PPreRUnlP -> ["runlock"], []
   | PPreEnq -> ["sched"], ["scheddone"]
+  | PPreU -> (* the second word is a real word in the harness: its walk takes u's stripe lock, looks u up, and -- u empty: a record exists --
+                locks the record, parks, unlocks.  One abstract step here: the accesses after the first are markers inside the step *)
+    if s.g_u then ["hlock"], ["hget_locked"; "hunlock"] else ["hlock"], ["hget_locked"; "rlock"; "hunlock"; "runlock"]
   | PFfwEff | PEfqEff -> [], ["fence"]
   | PFfqEff | PFeqEff -> [], (if own then ["fence"] else [])
   | PFfwSch | PFfqSch | PFeqSch | PEfqSch -> ["sched"], ["scheddone"]
@@ -79,7 +82,7 @@ let held () =
        let s = ref (minit ik oa ob) in
        let budget = ref 200000 in
        let seqs = [| ref []; ref [] |] and cnts = [| ref 0; ref 0 |] and heldat = [| ref "-"; ref "-" |] and heldzone = [| ref "-"; ref "-" |] in
-       let pending = [| ref []; ref [] |] in            (* markers of the step just executed that are not yet passed *)
+       let pending = [| ref []; ref [] |] and inu = [| ref false; ref false |] in            (* markers of the step just executed that are not yet passed *)
        let other_moved_while_held = ref 0 in
        let thr_of i = if i = 0 then !s.g_t0 else !s.g_t1 in
        let tid i = if i = 0 then t0 else t1 in
@@ -90,7 +93,7 @@ let held () =
            decr budget;
            match !(pending.(i)) with
            | m :: rest ->
-             if lim > 0 && !(cnts.(i)) + 1 = lim then (stop := true; heldat.(i) := m; heldzone.(i) := zone (thr_of i))
+             if lim > 0 && !(cnts.(i)) + 1 = lim then (stop := true; heldat.(i) := m; heldzone.(i) := (if !(inu.(i)) then "uwalk" else zone (thr_of i)))
              else (incr cnts.(i); seqs.(i) := m :: !(seqs.(i)); pending.(i) := rest)
            | [] ->
              let th = thr_of i in
@@ -99,7 +102,8 @@ let held () =
                let (pre, post) = names !s th in
                if pre <> [] && lim > 0 && !(cnts.(i)) + 1 = lim then (stop := true; heldat.(i) := List.hd pre; heldzone.(i) := zone th)
                else match mstep !s (tid i) with
-                 | Some s' -> List.iter (fun m -> incr cnts.(i); seqs.(i) := m :: !(seqs.(i))) pre; pending.(i) := post; s := s'
+                 | Some s' -> List.iter (fun m -> incr cnts.(i); seqs.(i) := m :: !(seqs.(i))) pre; pending.(i) := post;
+                   inu.(i) := (th.t_pc = PPreU); s := s'
                  | None -> stop := true
              end
          done in
